@@ -247,5 +247,10 @@ ASSUME ~MetaGroup \/ ndJsonSerialize("iss_cases.ndjson", SetToSeq(CTCasesOK))
 ASSUME ~MetaGroup \/ JsonSerialize("iss_meta_terms.json", MetaTerms)
 \* the law itself, on the abstract lists: deletion undoes insertion at every position
 ASSUME ~MetaGroup \/ \A l \in ExtLists : \A c \in Inserted(l) : StripCT(c) = l
+\* SelfSigned: every relation between issuer and subject name x own signature verifies or not x key type
+RelCases == { [rel |-> r, own |-> o, key |-> k] : r \in NameRels, o \in BOOLEAN, k \in {"ed25519", "p256", "rsa2048"} }
+ASSUME ~MetaGroup \/ \A c \in RelCases : ExpSelfSigned(c) <=> (c.rel = "identical" /\ c.own)
+ASSUME ~MetaGroup \/ ndJsonSerialize("iss_rel_cases.ndjson", SetToSeq(RelCases))
+ASSUME ~MetaGroup \/ PrintT(<<"RELCASES", Cardinality(RelCases)>>)
 ASSUME ~MetaGroup \/ PrintT(<<"CASES", Cardinality(CTCasesOK)>>)
 =============================================================================
